@@ -2,44 +2,31 @@
    Only statements; each is closed by [exact] of a lemma in Proof/ZcnMint.v.
 
    What the real BLS library answers for every signature entry (valid / well-formed but not
-   verifying / undecodable) is an input of the model. The code as it is ends verifySignatures as
-   PASSED at the first entry (in id order) for which Verify returns (false, nil):
-   [if !ok || err != nil { return errors.Wrap(err, ...) }] and errors.Wrap(nil, ...) is nil; the
-   entries after it are not even looked up. So the quorum clause is false of the code
-   (C18_quorum_refuted), and so is "the fee goes to an authorizer" in general; both are proved for
-   all mints whose counted entries contain no well-formed-but-invalid signature (C18_*_partial).
-   The other clauses hold in full. *)
+   verifying / undecodable) is an input of the model; verifySignatures stops the mint at the first
+   unique entry (in id order) that has an empty id, an unknown authorizer, a Verify error or a
+   signature that does not verify. (Before commit 126e504 of /repo a (false, nil) answer ended the
+   verification as passed; the oracle signature C18:invalid-signature-accepted stands for that
+   defect and must not fire any more.) *)
 From ZC Require Import Model.ZcnMint Proof.ZcnMint.
 Open Scope Z_scope.
 
-(* Full quorum statement: a mint implies threshold-many distinct, registered authorizers, each with
-   a valid signature in the payload (threshold = RoundToEven(percent_authorizers * number of
-   authorizers), the contract's reading of "the configured fraction"). *)
-Definition C18_full_quorum_statement : Prop :=
+(* Quorum: a mint implies threshold-many DISTINCT, registered authorizers, each with a valid signature
+   in the payload (threshold = RoundToEven(percent_authorizers * number of authorizers), the
+   contract's reading of "the configured fraction"). Duplicate, foreign, forged or empty entries
+   never add to the count: every distinct id listed must be a registered authorizer whose last
+   entry verifies. *)
+Theorem C18_mint_needs_quorum :
   forall st client p pick st' tr paid cred,
     zm_mint st client p pick = (st', ZmMinted tr paid cred) ->
     exists ids, NoDup ids /\ zm_threshold (zm_pbits st) (zm_count st) <= Z.of_nat (length ids) /\
       forall id, In id ids -> id <> 0 /\ In id (zm_reg st) /\
         exists s, In s (zp_sigs p) /\ zs_id s = id /\ zs_res s = ZsValid.
-
-(* one registered authorizer at 70 %, a payload whose only entry does not verify: minted *)
-Theorem C18_quorum_refuted : ~ C18_full_quorum_statement.
-Proof. exact zm_quorum_refuted. Qed.
-Print Assumptions C18_quorum_refuted.
-
-Theorem C18_quorum_partial :
-  forall st client p pick st' tr paid cred,
-    zm_mint st client p pick = (st', ZmMinted tr paid cred) ->
-    (forall s, In s (zm_counted st p) -> zs_res s <> ZsInvalid) ->
-    exists ids, NoDup ids /\ zm_threshold (zm_pbits st) (zm_count st) <= Z.of_nat (length ids) /\
-      forall id, In id ids -> id <> 0 /\ In id (zm_reg st) /\
-        exists s, In s (zp_sigs p) /\ zs_id s = id /\ zs_res s = ZsValid.
-Proof. exact zm_quorum_partial. Qed.
-Print Assumptions C18_quorum_partial.
+Proof. exact zm_quorum. Qed.
+Print Assumptions C18_mint_needs_quorum.
 
 (* The submitter is the receiving client; the receiver gets exactly amount - share from the contract
    wallet (share = max_fee / number of counted entries <= amount); the share is credited to the
-   stake pool of exactly one of the listed signers (or to nobody when it is 0 or that
+   stake pool of exactly one of the listed signers, a registered authorizer (or to nobody when it is 0 or that
    pool's stake is below min_stake: DistributeRewards pays nothing then); no other pool, and no
    registration, changes. Duplicate, foreign or empty ids never add to the count: the threshold is
    compared with the number of distinct ids, every one of which must be registered. *)
@@ -50,7 +37,7 @@ Theorem C18_receiver_amount_and_fee :
     zp_receiver p = client /\
     tr = [(zm_wallet, client, zp_amount p - share)] /\ share <= zp_amount p /\
     zm_min_mint st <= zp_amount p /\
-    In paid (map zs_id (zm_counted st p)) /\
+    In paid (map zs_id (zm_counted st p)) /\ In paid (zm_reg st) /\
     (cred = share \/ cred = 0) /\
     exists pool, zm_pool_get paid (zm_pools st) = Some pool /\
       (cred = 0 <-> share = 0 \/ zl_stake pool < zm_min_stake st) /\
@@ -59,15 +46,6 @@ Theorem C18_receiver_amount_and_fee :
       zm_reg st' = zm_reg st /\ zm_count st' = zm_count st.
 Proof. exact zm_mint_effect. Qed.
 Print Assumptions C18_receiver_amount_and_fee.
-
-(* ... and outside the trigger that signer is a registered authorizer *)
-Theorem C18_fee_goes_to_registered_authorizer_partial :
-  forall st client p pick st' tr paid cred,
-    zm_mint st client p pick = (st', ZmMinted tr paid cred) ->
-    (forall s, In s (zm_counted st p) -> zs_res s <> ZsInvalid) ->
-    In paid (zm_reg st).
-Proof. exact zm_fee_receiver_registered. Qed.
-Print Assumptions C18_fee_goes_to_registered_authorizer_partial.
 
 (* Each mint nonce succeeds at most once, over any history of registrations, deletions and mints *)
 Theorem C18_nonce_mints_once :
@@ -81,6 +59,10 @@ Theorem C18_refused_changes_nothing :
   forall st o st1, zm_step st o = (st1, ZmFail) -> st1 = st.
 Proof. exact zm_fail_noop. Qed.
 Print Assumptions C18_refused_changes_nothing.
+
+(* the payload that minted before the repair (a well-formed signature that does not verify) is refused *)
+Example C18_former_witness : snd (zm_mint zm_wit_state 100 zm_wit_payload 1) = ZmFail.
+Proof. exact zm_wit_refused. Qed.
 
 (* Non-vacuity: three authorizers at 70 % (threshold 2); two signers mint, a signer and its own
    duplicate do not, the same nonce does not mint again, a foreign signer spoils the payload, a
